@@ -444,6 +444,7 @@ func legSeed() {
 		if !guard("bip39.NewSeed", cl, in, func() { got, err = bip39.NewSeed(m, pass) }) {
 			return
 		}
+		r.Count("seed.checked:"+cl, 1)
 		if err != nil {
 			viol("rejected-valid", "bip39.NewSeed", cl, in, err.Error())
 			return
@@ -1301,11 +1302,12 @@ func main() {
 		fl("sentence.rejected.reason:"+c, 400, 20000)
 	}
 	fl("sentence.last-word-exhaustive.sets", 10, 200)
-	fl("seed.agree", 1300, 50000)
+	fl("seed.agree", 1100, 43000)
 	for _, c := range []string{"passphrase:empty", "passphrase:ascii", "passphrase:ascii-long", "passphrase:TREZOR", "passphrase:non-ascii(already NFKD)"} {
 		fl("seed.agree:"+c, 180, 7000)
 	}
-	fl("seed.agree:passphrase:non-ascii(needs NFKD)", 180, 7000)
+	// compared (agreement or the listed known finding D31), not necessarily agreeing
+	fl("seed.checked:passphrase:non-ascii(needs NFKD)", 180, 7000)
 	fl("master.agree", 1450, 59000)
 	fl("master.agree:seed-len-edge(16|64)", 400, 19000)
 	r.Floor("master.bad-seed-length.refused", 7)
